@@ -50,11 +50,12 @@ fn tok_eq(a: &DataToken, b: &DataToken) -> bool {
         (PrimitiveValue(x), PrimitiveValue(y)) => variant_name(x) == variant_name(y) && prim_le_bytes(x) == prim_le_bytes(y),
         (ItemValue(x), ItemValue(y)) => x == y,
         (OffsetTable(x), OffsetTable(y)) => x == y,
-        // the lazy reader has no offset table token: an item value holding its little-endian bytes
+        // the lazy reader has no offset table token: an item value holding the table's bytes in the
+        // stream's byte order (the decoded table itself is compared separately, against the opened file)
         (OffsetTable(t), ItemValue(b)) | (ItemValue(b), OffsetTable(t)) => {
-            let mut w = vec![];
-            t.iter().for_each(|o| w.extend_from_slice(&o.to_le_bytes()));
-            w == *b
+            let le: Vec<u8> = t.iter().flat_map(|o| o.to_le_bytes()).collect();
+            let be: Vec<u8> = t.iter().flat_map(|o| o.to_be_bytes()).collect();
+            le == *b || be == *b
         }
         _ => false,
     }
@@ -94,9 +95,6 @@ fn pick(ir: &[Elem], raw: (u16, u16), present: bool) -> (u16, u16) {
 fn check(c: &Case, obs: &mut Obs) {
     let (ts, enc, tsname) = ts_of(c.ts);
     let mut ir = canonical(&c.ds);
-    if enc == Ts::ExplicitBE {
-        ir.retain(|e| !e.v.is_pix());
-    }
     let mode = if c.all_undefined { LenMode::AllUndefined } else { LenMode::AsFlagged };
     let ir_eff = if enc == Ts::ImplicitLE { crate::conv::degrade_unknown_explicit_seqs(&ir, mode) } else { ir.clone() };
     let has_pix = ir.iter().any(|e| e.v.is_pix());
@@ -278,7 +276,7 @@ fn check(c: &Case, obs: &mut Obs) {
             match col.read_next_fragment(&mut b) {
                 Ok(Some(_)) => {
                     let mut w = vec![];
-                    bot.iter().for_each(|o| w.extend_from_slice(&o.to_le_bytes()));
+                    bot.iter().for_each(|o| w.extend_from_slice(&if enc.big() { o.to_be_bytes() } else { o.to_le_bytes() }));
                     if b != w {
                         obs.fail("C06:first read_next_fragment is not the offset table bytes", format!("got {b:02x?} want {w:02x?}"));
                     }
